@@ -104,13 +104,15 @@ Definition sign_str (s : bool) : str := if s then [c_minus] else [].
 Definition s_NaN : str := [78; 97; 78]%N.
 Definition s_inf : str := [105; 110; 102]%N.
 
-Definition float_fmt_prec (p : nat) (x : float) : str :=
-  match Prim2SF x with
+(* on the decoded value (sign, mantissa, exponent): no primitive float in sight *)
+Definition sf_fmt_prec (p : nat) (f : spec_float) : str :=
+  match f with
   | S754_nan => s_NaN
   | S754_infinity s => sign_str s ++ s_inf
   | S754_zero s => sign_str s ++ dec_point p 0
   | S754_finite s m e => sign_str s ++ dec_point p (scaled_round (Zpos m) e p)
   end.
+Definition float_fmt_prec (p : nat) (x : float) : str := sf_fmt_prec p (Prim2SF x).
 
 (* `{}` of a binary64: looked up (by bit pattern) in the table sent with the case *)
 Definition sf_eqb (a b : spec_float) : bool :=
